@@ -455,3 +455,50 @@ M('c08-get-param-first-occurrence-expr', 'C08', 'R3', REQ, GP,
   "            if store is not None:\n                store[name] = value\n\n            return value\n")
 # negative controls (exit 0): `value = param[-1] if isinstance(param, list) else param` stored and returned;
 # `param = param if not isinstance(param, list) else param[-1]`
+
+# ---------------------------------------------------------------- wave 10 (behaviour-preserving shapes the rules now read: the break INSIDE them)
+# R1 per-path reading of the comma split: pieces stored as they stand behind a guard that does not exclude what decode() rewrites
+NEWKEY_KEEP = "                    params[k] = [decode(element) for element in values]\n"
+M('c08-csv-pieces-raw-when-encoded', 'C08', 'R1', URI, NEWKEY_KEEP,
+  "                    params[k] = values if is_encoded else [decode(element) for element in values]\n")
+M('c08-csv-pieces-raw-unless-percent', 'C08', 'R1', URI, NEWKEY_KEEP,
+  "                    params[k] = values if '%' not in v else [decode(element) for element in values]\n")
+# the k1-c08-2 shape (filter first, decode under the flag) with the blank filter under the wrong polarity
+M('c08-csv-filter-then-decode-wrong-polarity', 'C08', 'R1', URI,
+  "                if not keep_blank:\n                    # NOTE(kgriffs): Normalize the result in the case that\n"
+  "                    # some elements are empty strings, such that the result\n"
+  "                    # will be the same for 'foo=1,,3' as 'foo=1&foo=&foo=3'.\n"
+  "                    params[k] = [decode(element) for element in values if element]\n"
+  "                else:\n                    params[k] = [decode(element) for element in values]\n",
+  "                if keep_blank:\n                    values = [element for element in values if element]\n"
+  "                if is_encoded:\n                    params[k] = [decode(element) for element in values]\n"
+  "                else:\n                    params[k] = values\n")
+# the k1-c08-1 shape (module-level helper handed the raw value): the helper forgets to decode the filtered pieces / gets the flag negated
+_HELPER = ("def _split_csv_value(value, keep_blank):\n    values = value.split(',')\n\n    if not keep_blank:\n"
+           "        return [%s for element in values if element]\n\n    return [decode(element) for element in values]\n\n\n")
+_CALLSITE_OLD = ("                values = v.split(',')\n\n                if not keep_blank:\n"
+                 "                    # NOTE(kgriffs): Normalize the result in the case that\n"
+                 "                    # some elements are empty strings, such that the result\n"
+                 "                    # will be the same for 'foo=1,,3' as 'foo=1&foo=&foo=3'.\n"
+                 "                    params[k] = [decode(element) for element in values if element]\n"
+                 "                else:\n                    params[k] = [decode(element) for element in values]\n")
+M2('c08-csv-helper-forgets-decode', 'C08', 'R1', [
+    {'file': URI, 'old': "def parse_query_string(\n", 'new': (_HELPER % 'element') + "def parse_query_string(\n"},
+    {'file': URI, 'old': _CALLSITE_OLD, 'new': "                params[k] = _split_csv_value(v, keep_blank)\n"}])
+M2('c08-csv-helper-flag-negated', 'C08', 'R1', [
+    {'file': URI, 'old': "def parse_query_string(\n", 'new': (_HELPER % 'decode(element)') + "def parse_query_string(\n"},
+    {'file': URI, 'old': _CALLSITE_OLD, 'new': "                params[k] = _split_csv_value(v, not keep_blank)\n"}])
+# R15 through the helper: the raw value handed to a helper that stores it undecoded
+M2('c08-raw-value-through-helper', 'C08', 'R15', [
+    {'file': URI, 'old': "def parse_query_string(\n", 'new': "def _as_list(value):\n    return [value]\n\n\ndef parse_query_string(\n"},
+    {'file': URI, 'old': "            elif is_encoded:\n                params[k] = decode(v)\n            else:\n                params[k] = v\n",
+     'new': "            else:\n                params[k] = _as_list(v)[0]\n"}])
+# R5 a local alias of the options object that is re-bound after it was stored into self.options
+M2('c08-options-alias-rebound', 'C08', 'R5', [
+    {'file': REQ, 'old': "        self.options = options if options is not None else RequestOptions()\n",
+     'new': "        if options is None:\n            options = RequestOptions()\n        self.options = options\n        options = RequestOptions()\n"},
+    {'file': REQ, 'old': "                    keep_blank=self.options.keep_blank_qs_values,\n                    csv=self.options.auto_parse_qs_csv,\n",
+     'new': "                    keep_blank=options.keep_blank_qs_values,\n                    csv=options.auto_parse_qs_csv,\n"}], also=('C06',))
+# negative controls (exit 0; preserving/k1-c08-1, k1-c08-2, k1-c06-2): the comma-split block extracted verbatim into
+# `_split_csv_value(value, keep_blank)`; `values = [e for e in values if e]` then `if is_encoded: [decode(e) ...] else: values`;
+# `if options is None: options = RequestOptions()` / `self.options = options` and `options.keep_blank_qs_values` at the call
